@@ -74,14 +74,21 @@ def toSchemaNoCache : Nat → SemType → TM IR
   | 0, _ => TM.fail
   | n+1, ty =>
     if ty.isNever then pure .never
-    else if ty.other then TM.fail                         -- tags outside the fragment
     else do
       -- `SubTypeTag::all()` order: String, Boolean, Number, OptionalProp, Null, Mapping, List
       let allBits : List IR :=
         (if ty.str == .all then [IR.string] else []) ++ (if ty.bool == .all then [IR.boolean] else []) ++
         (if ty.num == .all then [IR.number] else []) ++ (if ty.opt then [IR.undefined] else []) ++
         (if ty.null then [IR.null] else []) ++ (if ty.mapping == .all then [anyObject] else []) ++
-        (if ty.list == .all then [IR.anyArrayLike] else []) ++ (if ty.vu == .all then [IR.undefined] else [])
+        (if ty.list == .all then [IR.anyArrayLike] else []) ++ (if ty.vu == .all then [IR.undefined] else []) ++
+        -- the tags the port keeps as one bit (they only ever come from `unknown` / `any`): BigInt, Date, every
+        -- typed array kind, Map<any, any>, Set<any>
+        (if ty.other then
+          [IR.bigint, IR.date] ++
+          (["Uint8Array", "Uint8ClampedArray", "Uint16Array", "Uint32Array", "Int8Array", "Int16Array", "Int32Array",
+            "Float32Array", "Float64Array", "BigInt64Array", "BigUint64Array"].map IR.typedArray) ++
+          [IR.map .any .any, IR.set .any]
+         else [])
       let bools : List IR := match ty.bool with | .some b => [.const (.bool b)] | _ => []
       let nums : List IR := match ty.num with
         | .some ⟨true, vs⟩ => vs.map fun c => .const (.num c)
